@@ -286,9 +286,11 @@ Print Assumptions C19_size_counter_exact.
 (** SOURCE TIE: the model's guards and arithmetic ARE the expressions of the Go source (regenerated by
     go2coq on every check): MaxEvidencePerBlock, validateBlock's count limit, Pool.verify's expiry test and
     every check of VerifyDuplicateVote in the source's order, isExpired, Update's sanity check and pruning
-    condition, the next pruning height, listEvidence's byte cap, PendingEvidence's shortcut, CheckEvidence's
-    fast path and duplicate scan, ValidateBasic / NewDuplicateVoteEvidence's ordering, WeightedMedian /
-    MedianTime and tryAddVote's choice of timestamp (statement spelled out in SourceTie.v). *)
+    condition, the next pruning height, listEvidence's byte cap, PendingEvidence's shortcut, every branch of
+    one CheckEvidence step (fastCheck, expiry on the fast path, committed?, verify, duplicate scan),
+    AddEvidence / AddEvidenceFromConsensus / markEvidenceAsCommitted's pending and committed tests,
+    ValidateBasic (incl. the two valid vote types) / NewDuplicateVoteEvidence's ordering, WeightedMedian /
+    MedianTime and tryAddVote's evidence branch (statement spelled out in SourceTie.v). *)
 From Kardia Require Import C19.SourceTie.
 Theorem C19_source_tie : C19_source_tie_statement.
 Proof. exact C19_source_tie_proof. Qed.
